@@ -1,3 +1,61 @@
-/-  C07/Theorems — the ledger for property C07 (every theorem here is audited).  Placeholder. -/
+/-
+  C07/Theorems — the ledger for property C07.  Every `theorem` here is audited
+  (`#print axioms` ⊆ {propext, Classical.choice, Quot.sound}) on every run.
+-/
+import OttoVerif.C07.Lemmas
 namespace OttoVerif.C07.Thm
+open OttoVerif.C07 OttoVerif.C07.Spec OttoVerif.C07.Driver OttoVerif.C07.Lem
+
+/-! ## ToPropertyDescriptor (§8.10.5) -/
+
+/-- property.go:123 `toPropertyDescriptor` accepts exactly the descriptor objects §8.10.5 accepts and
+    yields the same Property Descriptor, for EVERY descriptor object (all 2·3³·2·4² field shapes,
+    any value, any functions). -/
+theorem toPropertyDescriptor_refines (d : DescArg) :
+    (OttoVerif.C07.toPropertyDescriptor d).map absDesc = Spec.toPropertyDescriptor d := by
+  cases d with
+  | nonobj => rfl
+  | obj d =>
+    obtain ⟨e, c, w, v, g, s⟩ := d
+    cases g <;> cases s <;> cases v <;>
+      rcases w with _ | _ | _ <;> rcases e with _ | _ | _ <;> rcases c with _ | _ | _ <;>
+      simp [OttoVerif.C07.toPropertyDescriptor, Spec.toPropertyDescriptor, gsSlot, gsField, setTrit, absDesc,
+        topt, slotField, tset]
+
+/-! ## Deviation witnesses (each region really deviates; kernel-checked, replayed on the real code) -/
+
+def dE : Desc := ⟨none, none, none, none, .absent, .absent⟩
+
+/-- `o={}; o.a=1; Object.defineProperty(o,'a',{enumerable:false})` -/
+def wGeneric : List Op := [.create none [], .put false 0 0 4, .defn 0 0 (.obj { dE with e := some false })]
+example : run [] wGeneric ≠ Spec.run [] wGeneric := by decide
+example : devRun [] wGeneric = ["generic_loses_writable"] := by decide
+
+/-- `defineProperty(o,'a',{get:F0,configurable:true}); defineProperty(o,'a',{writable:true})` -/
+def wAccToData : List Op :=
+  [.create none [], .defn 0 0 (.obj { dE with c := some true, g := .fn 0 }), .defn 0 0 (.obj { dE with w := some true })]
+example : run [] wAccToData ≠ Spec.run [] wAccToData := by decide
+example : devRun [] wAccToData = ["acc_to_data_keeps_accessor"] := by decide
+
+/-- `defineProperties(o,{a:{value:1},b:{get:5}})` leaves `a` defined -/
+def wNotAtomic : List Op :=
+  [.create none [], .defs 0 [(0, .obj { dE with v := some 4 }), (1, .obj { dE with g := .bad })]]
+example : run [] wNotAtomic ≠ Spec.run [] wNotAtomic := by decide
+example : devRun [] wNotAtomic = ["defineProperties_not_atomic"] := by decide
+
+/-- `defineProperty(o,'a',{get:undefined})` then getOwnPropertyDescriptor has no get/set keys -/
+def wBothUndef : List Op := [.create none [], .defn 0 0 (.obj { dE with g := .undef })]
+example : run [] wBothUndef ≠ Spec.run [] wBothUndef := by decide
+example : devRun [] wBothUndef = ["accessor_both_undefined"] := by decide
+
+/-- `p={a:1}; c=Object.create(p); c.a=2; for (k in c)` enumerates `a` twice -/
+def wForIn : List Op := [.create none [], .put false 0 0 4, .create (some 0) [], .put false 1 0 5]
+example : run [] wForIn ≠ Spec.run [] wForIn := by decide
+example : devRun [] wForIn = ["forin_shadowed"] := by decide
+
+/-- `Object.preventExtensions(o); (function(){'use strict'; o.a=1})()` does not throw -/
+def wStrict : List Op := [.create none [], .preventExt 0, .put true 0 0 4]
+example : run [] wStrict ≠ Spec.run [] wStrict := by decide
+example : devRun [] wStrict = ["strict_ignored"] := by decide
+
 end OttoVerif.C07.Thm
